@@ -1,7 +1,7 @@
 """C12 -- asynchronous decoding equals in-memory decoding for every delivery schedule (primitive level)."""
 import itertools, random, re
 from .. import core, thriftgen as tg, malform as mf
-from . import c09
+from . import c07, c09
 
 PKS = ["binary", "binary_le", "compact"]
 
@@ -66,14 +66,41 @@ def gen_cases(rng, n, runner, exhaustive_upto):
                 scheds = rng.sample(scheds, 3)
             for sc in scheds:
                 pairs.setdefault(("rd %s %d %s" % (pk, code, hx), "ard %s %d %s %s" % (pk, code, hx, sc)), kind)
+    # skip in a field loop and ApplicationException::decode(_async): the callers that never call read_field_end (async
+    # skipper's struct arm, the exception's unknown-field arm) on structs with bool fields followed by bool containers
+    for pk in PKS:
+        for st in c07.LOOP_STRUCTS + [[(1, "S3 f1 b1 f2 i5 f3 L2,2 b1 b0"), (2, "L2,1 b1")], [(1, "L12,1 S2 f1 b0 f2 T2,1 b1"), (2, "b1")]]:
+            text = "S%d %s" % (len(st), " ".join("f%d %s" % (i, v) for i, v in st))
+            oc = core.run_lines(runner, ["rt %s contig - 1 %s" % (pk, text)])[0]
+            if not oc.startswith("W "):
+                continue
+            hx = oc.split(" ")[1]
+            for ids in ([st[0][0]], [i for i, v in st if v[0] == "b"], [i for i, _ in st]):
+                if not ids:
+                    continue
+                idl = ",".join(str(i) for i in ids)
+                for sc in schedules(rng, len(hx) // 2, 0)[:5]:
+                    pairs.setdefault(("rds %s sync %s %s" % (pk, hx, idl), "rds %s async:%s %s %s" % (pk, sc, hx, idl)), "loop")
+        for extra in c07.APP_EXTRAS:
+            for order in (0, 1, 2):
+                base = [(1, "s626f6f6d"), (2, "i6")]
+                fl = (base + extra) if order == 0 else ([base[0]] + extra + [base[1]]) if order == 1 else (extra + base)
+                text = "S%d %s" % (len(fl), " ".join("f%d %s" % (i, v) for i, v in fl))
+                oc = core.run_lines(runner, ["rt %s contig - 1 %s" % (pk, text)])[0]
+                if not oc.startswith("W "):
+                    continue
+                b = bytes.fromhex(oc.split(" ")[1])
+                for m, kind in [(b, "app"), (b + b"\x07\x08", "app+trailing"), (b[:-1], "app-trunc"), (b[:len(b) // 2], "app-trunc")]:
+                    for sc in schedules(rng, len(m), 0)[:4]:
+                        pairs.setdefault(("appr %s %s" % (pk, tg.hx(m)), "aappr %s %s %s" % (pk, tg.hx(m), sc)), kind)
     for m, kind in mf.randoms(rng, 60):
         pk = rng.choice(PKS)
         code = rng.choice([12, 13, 14, 15, 11, 16])
         pairs.setdefault(("rd %s %d %s" % (pk, code, tg.hx(m)), "ard %s %d %s %s" % (pk, code, tg.hx(m), rng.choice(["all", "b1", "b1/p1"]))), kind)
     items = [(a, b, k) for (a, b), k in pairs.items()]
     if len(items) > n:
-        keep = [it for it in items if len(it[0]) > 8000]
-        rest = [it for it in items if len(it[0]) <= 8000]
+        keep = [it for it in items if len(it[0]) > 8000 or it[2].startswith(("loop", "app"))]
+        rest = [it for it in items if not (len(it[0]) > 8000 or it[2].startswith(("loop", "app")))]
         rng.shuffle(rest)
         items = keep + rest[:max(0, n - len(keep))]
     return items
@@ -81,8 +108,8 @@ def gen_cases(rng, n, runner, exhaustive_upto):
 
 def oracle(rd_out, ard_out):
     """C12 on the implementation alone: async outcome vs in-memory outcome on the same bytes"""
-    a = c09.strip_impl(ard_out)
-    s = c09.strip_impl(rd_out)
+    a = re.sub(r"L1,1 l-?\d+", "L1,1 l*", c09.strip_impl(ard_out))
+    s = re.sub(r"L1,1 l-?\d+", "L1,1 l*", c09.strip_impl(rd_out))
     if a.startswith("panic") or a.startswith("CRASH"):
         return "asynchronous decoder panicked / crashed"
     if a.startswith("HANG"):
@@ -116,7 +143,9 @@ def run_prim(chk, replay=None):
     chk.cov["rule"] = ("pairs (rd, ard) on the same bytes: valid encodings (with and without trailing bytes), truncations, "
                        "boundary overwrites, bit flips, random strings x {binary, binary_le, compact} x delivery schedules: ALL "
                        "2^(n-1) split patterns for messages of <= %d bytes, otherwise whole / byte-at-a-time / halves / random "
-                       "cuts, with 0-3 Pending wake-ups injected before every hand-out. non-trivial = derived from a valid "
+                       "cuts, with 0-3 Pending wake-ups injected before every hand-out; plus (rds sync, rds async) pairs: field loops skipping bool / "
+                       "struct / container fields before bool containers, and (appr, aappr) pairs: ApplicationException with unknown fields "
+                       "of every type, truncated and with trailing bytes. non-trivial = derived from a valid "
                        "encoding; distinct by SHA-1 of the ard line" % upto)
     rd_lines = sorted(set(a for a, _, _ in items))
     ard_lines = [b for _, b, _ in items]
@@ -125,7 +154,7 @@ def run_prim(chk, replay=None):
     for _, b, k in items:
         chk.count(b, k != "random")
         kinds[k] = kinds.get(k, 0) + 1
-        sc = b.split(" ")[4]
+        sc = b.split(" ")[2][6:] if b.startswith("rds ") else b.split(" ")[3] if b.startswith("aappr ") else b.split(" ")[4]
         key = ("pending" if "/p" in sc else "") + ("b1" if sc.startswith("b1") else "all" if sc.startswith("all") else "h" if sc.startswith("h") else "cuts")
         sched_kinds[key] = sched_kinds.get(key, 0) + 1
     if hb:
@@ -153,7 +182,7 @@ def run_prim(chk, replay=None):
             chk.violation("correspondence ard broken: async model and implementation disagree (%d cases) but async == sync "
                           "held on every case" % len(mism),
                           dict(kind="correspondence", correspondence="ard (coq/Thrift/Async.v vs pilota::thrift async readers)",
-                               ard=b, rd=b.replace("ard ", "rd ", 1).rsplit(" ", 1)[0], impl_output=o[:400], model_output=m[:400]), no_input=True)
+                               ard=b, rd=(b.replace("ard ", "rd ", 1).rsplit(" ", 1)[0] if b.startswith("ard ") else b), impl_output=o[:400], model_output=m[:400]), no_input=True)
         if not gate["ok"]:
             chk.violation("proof obligation broken: %s (%s)" % (gate.get("failed"), gate.get("error", "")[:300]),
                           dict(kind="proof", theorem_file="coq/Properties/C12.v", failed=gate.get("failed"),
